@@ -317,3 +317,18 @@ Example C05_witness_unsubscribe :
   wires s0 es = [subreq; unsub7] /\
   nth 3 (snd (run s0 es)) ([], None) = ([OWire unsub7; OComplete 9 CDone], None).
 Proof. vm_compute. split; reflexivity. Qed.
+
+(* ---- down to the bytes on the wire (Proofs/ClientWire.v) ---- *)
+From JV Require Import Base.Utf8 Proofs.WireFacts Proofs.ClientWire.
+
+Theorem C05_push_frame_classified : forall (me : bytes) (sid : subid) (raw : bytes),
+  utf8_valid me = true -> wf_subid sid -> raw_payload raw ->
+  classify_frame (ser_sub_notif me sid false raw) = FSingle (ISubNotif me sid raw).
+Proof. exact classify_frame_sub_notif. Qed.
+Print Assumptions C05_push_frame_classified.
+
+Theorem C05_close_frame_classified : forall (me : bytes) (sid : subid) (raw : bytes),
+  utf8_valid me = true -> wf_subid sid -> raw_payload raw ->
+  classify_frame (ser_sub_notif me sid true raw) = FSingle (ISubErr me sid raw).
+Proof. exact classify_frame_sub_close. Qed.
+Print Assumptions C05_close_frame_classified.
